@@ -75,10 +75,10 @@ theorem C04_inv_step (w : World) (op : Op) (h : WInv w) : WInv (step w op).1 := 
       rcases getD_set_any _ _ _ _ _ hs with hx | hx
       · cases hx
       · exact h c' s hx
-  | mkBlock c n =>
+  | mkBlock c n len =>
     simp only [step]; split
     · exact h.of_cifs rfl
-    · rename_i s hl; exact (h.setCif c _ (createBlock_invS (h.live hl) n false)).of_cifs rfl
+    · rename_i s hl; exact (h.setCif c _ (createBlock_invS (h.live hl) n len)).of_cifs rfl
   | getBlock c n =>
     simp only [step]; split
     · exact h.of_cifs rfl
@@ -87,10 +87,10 @@ theorem C04_inv_step (w : World) (op : Op) (h : WInv w) : WInv (step w op).1 := 
     simp only [step]; split
     · exact h
     · rename_i s hl; exact h.setCif c _ (h.live hl)
-  | mkFrame hh n =>
+  | mkFrame hh n len =>
     simp only [step]; split
     · exact h.of_cifs rfl
-    · rename_i e s hl; exact (h.setCif _ _ (createFrame_invS (h.live (liveH_liveC hl)) e.h n false)).of_cifs rfl
+    · rename_i e s hl; exact (h.setCif _ _ (createFrame_invS (h.live (liveH_liveC hl)) e.h n len)).of_cifs rfl
   | getFrame hh n =>
     simp only [step]; split
     · exact h.of_cifs rfl
@@ -257,7 +257,7 @@ theorem cifs_independent (w : World) (op : Op) :
       try simp only []
       repeat' split
       all_goals first | rfl | exact getD_set_ne' _ _ _ _ hc
-  case mkBlock c n =>
+  case mkBlock c n len =>
     cases hl : w.liveC c with
     | none => exact ⟨0, fun _ _ => rfl⟩
     | some s =>
@@ -281,7 +281,7 @@ theorem cifs_independent (w : World) (op : Op) :
       try simp only []
       repeat' split
       all_goals first | rfl | exact getD_set_ne' _ _ _ _ hc
-  case mkFrame hh n =>
+  case mkFrame hh n len =>
     cases hl : w.liveH hh with
     | none => exact ⟨0, fun _ _ => rfl⟩
     | some p =>
@@ -965,10 +965,10 @@ theorem C04_wok_step (w : World) (op : Op) (h : WOk w) (hin : inContract w op = 
     simp only [step]; split
     · exact h
     · rename_i s hl; exact h.cifDel c (okC_busy hin hl) rfl rfl
-  | mkBlock c n =>
+  | mkBlock c n len =>
     simp only [step]; split
     · exact h.same rfl rfl
-    · rename_i s hl; exact h.setFree c _ (createBlock_goodS (h.good.live hl) n false) (createBlock_autocommit s n false (h.autocommit hl (okC_busy hin hl))) (okC_busy hin hl) rfl rfl
+    · rename_i s hl; exact h.setFree c _ (createBlock_goodS (h.good.live hl) n len) (createBlock_autocommit s n len (h.autocommit hl (okC_busy hin hl))) (okC_busy hin hl) rfl rfl
   | getBlock c n =>
     simp only [step]; split
     · exact h.same rfl rfl
@@ -977,10 +977,10 @@ theorem C04_wok_step (w : World) (op : Op) (h : WOk w) (hin : inContract w op = 
     simp only [step]; split
     · exact h
     · rename_i s hl; exact h.setFree c _ (h.good.live hl) (h.autocommit hl (okC_busy hin hl)) (okC_busy hin hl) rfl rfl
-  | mkFrame hh n =>
+  | mkFrame hh n len =>
     simp only [step]; split
     · exact h.same rfl rfl
-    · rename_i e s hl; exact h.setFree _ _ (createFrame_goodS (h.good.live (liveH_liveC hl)) e.h n false) (createFrame_autocommit s e.h n false (h.autocommit (liveH_liveC hl) (okH_busy hin hl))) (okH_busy hin hl) rfl rfl
+    · rename_i e s hl; exact h.setFree _ _ (createFrame_goodS (h.good.live (liveH_liveC hl)) e.h n len) (createFrame_autocommit s e.h n len (h.autocommit (liveH_liveC hl) (okH_busy hin hl))) (okH_busy hin hl) rfl rfl
   | getFrame hh n =>
     simp only [step]; split
     · exact h.same rfl rfl
